@@ -503,6 +503,9 @@ func (m *MutexState) Unlock() {
 	if g.spinLock {
 		g.lastUnlock = m
 		g.spinLock = false
+		// a release is a scheduling point too: what the goroutine does next (reading a flag it
+		// used to read under the lock, say) may interleave with the others' critical sections
+		x.park(g, op{kind: opPoint, site: "unlocked"})
 		return
 	}
 	m.ver = h64(m.ver, g.hash)
@@ -511,6 +514,7 @@ func (m *MutexState) Unlock() {
 	g.fruitless = map[uint64]bool{}
 	x.progress(g)
 	g.lastUnlock = m
+	x.park(g, op{kind: opPoint, site: "unlocked"})
 }
 
 // WGState is the scheduler's view of a WaitGroup.
